@@ -340,7 +340,15 @@ class Arbiter:
 
     def halt(self, reason=None, exit_status=0):
         """ halt arbiter """
-        self.stop()
+        while True:
+            try:
+                self.stop()
+                break
+            except HaltServer:
+                # one more worker failed to boot while we wait for the
+                # others to leave (raised from the SIGCHLD handler): we
+                # are already halting, finish the job
+                continue
 
         log_func = self.log.info if exit_status == 0 else self.log.error
         log_func("Shutting down: %s", self.master_name)
